@@ -5,11 +5,16 @@
    never admitted), and handleIncomingPacket (the verdict is the [latest] argument of
    returnRoutabilityConn.HandleCandidate).  Definitions only; proofs in C15NewestSound.v.
 
-   [fixed = true] is the code as repaired by 91521a5 (F71) and 0538fb0 (F72):
+   The verdict has had three forms ([rule]):
+   [RSeen]    the code now (696da78):
        newest  =  (first accepted record of its epoch  \/  above everything accepted in its epoch)
-                  /\  epoch = remote epoch
-   [fixed = false] is the code before: the verdict was the replay window's own answer, which is
-   "sequence number 0, or above the window head" within the record's epoch only. *)
+                  /\  no record of a HIGHER epoch has been accepted
+   [RAuth]    91521a5 (F71) + 0538fb0 (F72): the second conjunct was "epoch = remote epoch", the
+              epoch the peer is AUTHORISED to use; safe, but after the peer's KeyUpdate was
+              processed and our ACK lost nothing the peer can still send is newest (no challenge,
+              connection wedged once the peer's address changes)
+   [RWindow]  before: the replay window's own answer, "sequence number 0, or above the window
+              head", within the record's epoch only. *)
 From DtlsV Require Import Lib.Bytes Rec.Window Rrc.C15Manager Rrc.C15Conn.
 Open Scope N_scope.
 
@@ -36,14 +41,21 @@ Definition seen (ep : N) (st : nstate) : bool := existsb (N.eqb ep) (n_seen st).
 Definition nadmit (st : nstate) (ep seq : N) : bool :=
   (0 <? ep) && (ep <=? n_remote st) && check NMAXSEQ (win_of ep (n_wins st)) seq.
 
+Inductive rule := RWindow | RAuth | RSeen.
+
+(* a record of an epoch above [ep] has been accepted (loop over replayAccepted[ep+1..]) *)
+Definition seen_higher (ep : N) (st : nstate) : bool := existsb (fun e => ep <? e) (n_seen st).
+
 (* Conn.newestRecord(epoch, sequenceNumber, latest) *)
-Definition newest_verdict (fixed : bool) (st : nstate) (ep seq : N) (latest : bool) : bool :=
-  if fixed then
-    if (seq =? 0) && seen ep st then false else latest && (ep =? n_remote st)
-  else latest.
+Definition newest_verdict (r : rule) (st : nstate) (ep seq : N) (latest : bool) : bool :=
+  match r with
+  | RWindow => latest
+  | RAuth => if (seq =? 0) && seen ep st then false else latest && (ep =? n_remote st)
+  | RSeen => if (seq =? 0) && seen ep st then false else latest && negb (seen_higher ep st)
+  end.
 
 (* markPacketAsValid(): the window accepts, the verdict is computed, the epoch is flagged *)
-Definition naccept (fixed : bool) (st : nstate) (ep seq : N) : nstate * bool :=
+Definition naccept (fixed : rule) (st : nstate) (ep seq : N) : nstate * bool :=
   let '(w', latest) := accept NMAXSEQ (win_of ep (n_wins st)) seq in
   (mkN (n_remote st) (win_set ep w' (n_wins st)) (ep :: n_seen st),
    newest_verdict fixed st ep seq latest).
@@ -59,7 +71,7 @@ Inductive nevent :=
 | NRemote (e : N).              (* the remote epoch is raised *)
 
 (* result: new state and, for an admitted record, Some (epoch, seq, verdict) *)
-Definition nstep (fixed : bool) (st : nstate) (ev : nevent) : nstate * option (N * N * bool) :=
+Definition nstep (fixed : rule) (st : nstate) (ev : nevent) : nstate * option (N * N * bool) :=
   match ev with
   | NRecord ep seq =>
       if nadmit st ep seq then
@@ -69,7 +81,7 @@ Definition nstep (fixed : bool) (st : nstate) (ev : nevent) : nstate * option (N
   end.
 
 (* the admitted records of a run, oldest first, with their verdicts *)
-Fixpoint nrun (fixed : bool) (st : nstate) (evs : list nevent) : nstate * list (N * N * bool) :=
+Fixpoint nrun (fixed : rule) (st : nstate) (evs : list nevent) : nstate * list (N * N * bool) :=
   match evs with
   | [] => (st, [])
   | ev :: evs' =>
@@ -100,7 +112,7 @@ Record estate := mkES { e_n : nstate; e_c : cstate }.
 
 (* result: new state, RRC records produced, and the admitted record (epoch, seq) if any.
    [local] is the endpoint's own connection ID (C15Conn.record_admitted). *)
-Definition estep (fixed : bool) (local : bytes) (st : estate) (ev : eevent)
+Definition estep (fixed : rule) (local : bytes) (st : estate) (ev : eevent)
   : estate * list out * option (N * N) :=
   match ev with
   | EArrive a =>
@@ -115,7 +127,7 @@ Definition estep (fixed : bool) (local : bytes) (st : estate) (ev : eevent)
   end.
 
 (* final state and the admitted records, oldest first *)
-Fixpoint erun (fixed : bool) (local : bytes) (st : estate) (evs : list eevent)
+Fixpoint erun (fixed : rule) (local : bytes) (st : estate) (evs : list eevent)
   : estate * list (N * N) :=
   match evs with
   | [] => (st, [])
